@@ -341,3 +341,70 @@ def check(facts, rep, tier, cfg):
                          and (callee(t).get("res") or callee(t)["dp"]) in facts.by_dp for _, t in b.calls())
             (rep.ok if ok else rep.bad)("C17.R5", "listener-snapshots-per-connection", where,
                                         "load_full() inside the accept loop, handed to the connection" if ok else "the listener does not take a fresh snapshot of the TLS identity for each accepted connection")
+    # ---- R6 role propagation of the authentication inputs
+    rep.rule("C17.R6", "authentication inputs keep their role along the identity functions: every in-crate call of a function with a "
+                       "client_ca_path / cert_path / key_path / tls_skip_verify parameter passes the caller's value of the same role")
+    ROLE_PARAMS = {"client_ca_path": {"client_ca_path", "tls_ca", "client_ca"}, "cert_path": {"cert_path", "tls_cert", "certs"},
+                   "key_path": {"key_path", "tls_key", "priv_key_pem"}, "tls_skip_verify": {"tls_skip_verify", "tls_insecure"},
+                   "ca_path": {"ca_path", "tls_ca"}}
+    # parameter names of in-crate functions (async fns: names of the coroutine's upvars)
+    pnames = {}
+    for fb in crate.bodies:
+        if fb.kind in ("Fn", "AssocFn") and "/src/tls/" in fb.file:
+            names = {}
+            for i in range(1, fb.argc + 1):
+                nm = fb.names.get(i)
+                if nm:
+                    names[i] = nm
+            if not names:
+                # async fn: the coroutine child carries the names
+                for ch in crate.children.get(fb.dp, []):
+                    for k, v in ch.upvar_names.items():
+                        names[k + 1] = v
+            pnames[fb.dp] = names
+    n6 = 0
+    for b in crate.bodies:
+        if "/tests" in b.file or b.path.startswith("tests::") or "::tests::" in b.path:
+            continue
+        tr = None
+        for bi, t in b.calls():
+            c = callee(t)
+            if not c:
+                continue
+            dp = c.get("res") or c["dp"]
+            if dp not in pnames:
+                continue
+            for pos, pname in pnames[dp].items():
+                if pname not in ROLE_PARAMS or pos - 1 >= len(t["args"]):
+                    continue
+                tr = tr or Tracer(facts, b)
+                an = tr.operand(t["args"][pos - 1])
+                have = set()
+                for x in walk(an):
+                    if x.kind == "field" and x[2].isdigit() and strip(x[1]).kind == "param" and strip(x[1])[1] == 1 and b.kind == "Closure":
+                        have.add(b.upvar_names.get(int(x[2])))
+                    elif x.kind == "param":
+                        have.add(x[2])
+                    elif x.kind == "field":
+                        have.add(x[2])
+                n6 += 1
+                where = "%s (%s)" % (loc_str(t["loc"]), b.path)
+                key = "%s->%s/%s" % (b.path.split("::{")[0], c["name"], pname)
+                # does the caller have a value of this role at all? (its own parameters / captured variables)
+                root = b
+                while root.kind == "Closure" and root.parent in facts.by_dp:
+                    root = facts.by_dp[root.parent]
+                own = set(root.names.get(i) for i in range(1, root.argc + 1)) | set(b.upvar_names.values())
+                for ch in crate.children.get(root.dp, []):
+                    own |= set(ch.upvar_names.values())
+                if have & ROLE_PARAMS[pname]:
+                    rep.ok("C17.R6", key, where, "%s <- %s" % (pname, sorted(x for x in have if x in ROLE_PARAMS[pname])), nontrivial=False)
+                elif not (own & ROLE_PARAMS[pname]):
+                    rep.ok("C17.R6", key + "/fixed-policy", where, "caller has no configured %s: fixed policy `%s`" % (pname, fmt(strip(an))[:40]), nontrivial=False)
+                else:
+                    # constants for the caller's own fixed policy (e.g. Some(&["http/1.1"])) are not authentication inputs
+                    rep.bad("C17.R6", key, where,
+                            "the `%s` handed to %s is `%s`, not the caller's configured value: the authentication requirement "
+                            "configured by the operator is dropped or replaced on this path" % (pname, c["name"], fmt(strip(an))[:80]))
+    rep.floor("C17.R6", "role-carrying calls in the TLS layer", n6, 6)
+
